@@ -6,7 +6,7 @@ COMMON_TRUST = [
     "hand-written Lean model tied to /repo by the differential harness (/verif/harness) on every run; generators, canonicalisers and tools/extract.py are trusted to be honest comparisons",
 ]
 
-HOOK_COMMITS = ["0930f64"]
+HOOK_COMMITS = ["0930f64", "8ed103b"]
 
 # properties deliberately not claimed, with the reason (empty: every property is meant to be claimed)
 NOT_CLAIMED = {}
@@ -64,6 +64,21 @@ PROPS = {
         "explanation": "insert_state_neutral + blank/comment corollaries in Lean; driver op `insert` compared with the real counter's per-line classes before and after; predicate: code count and all other classes unchanged",
         "trusted_base": COMMON_TRUST + COUNTER_TRUST,
         "assumptions": ["files without an ignore-file directive (inserting a line shifts the 10-line scan window)"],
+    },
+    "C16": {
+        "modules": ["SlocModel.Props.C16"],
+        "required_theorems": ["merge_child_scalar_wins", "merge_arrays_concat", "merge_arrays_reset", "merge_single_key",
+                              "no_marker_survives", "marker_elsewhere_rejected", "finish_ok_noMarker", "resolve_terminates",
+                              "resolve_default_terminates", "too_deep", "cycle_detected", "no_extends_is_leaf",
+                              "resolve_fold", "foldLeafFirst_eq_chainFold"],
+        "technique": "Lean 4 theorems over a model of merge.rs/extends.rs (mutual inductive TOML values; resolve = left fold; termination for every reference graph) + differential correspondence on a mock file system and the real binary",
+        "level_text": "Machine-checked for all TOML values and all reference graphs: the documented merge (child scalar wins, arrays parent++child unless the child starts with $reset, per-key table merge); validation accepted implies no reset element remains in any array after stripping, and a marker at any index > 0 is rejected; the resolver never exceeds maxExtendsDepth+2 nested calls whatever the graph (so it always terminates), reports a too-deep chain and a revisited name as errors carrying the chain, treats a file without a string `extends` as a leaf, and on every acyclic chain of at most maxExtendsDepth+1 local files returns exactly the left fold of finish-after-merge from base to leaf. MAX_EXTENDS_DEPTH and $reset are regenerated from the source on every run. The model is compared with ExtendsResolver on a mock FileSystem (6k graphs quick / 300k thorough: chains 1..13, cycles, self-loops, missing files, presets, absolute/relative/dotted spellings, non-string extends) and with merge_toml_values / validate_reset_positions / strip_reset_markers on generated value pairs; flattening and --no-extends are checked through FileConfigLoader and the real binary.",
+        "level_note": "Trusted: Lean kernel + standard axioms; harness; toml parsing/printing and path canonicalisation are parameters (the harness resolves reference spellings with the same mock file system the real resolver uses); remote references belong to C18. Associativity of merge (the algebraic reason flattening works) is validated by the flattening correspondence, not proved.",
+        "trivial_tag_prefixes": [],
+        "rule": "reference graphs over 13 file names: chain length 1-5 (5/6) or 10-13 (1/6), base twist in {none, preset, cycle back into the chain, missing file, unknown preset, non-string extends}, each reference spelled absolute / relative with .. / ./ relative / dotted absolute; members are configuration-shaped TOML tables (real section and field names, string arrays and rule-table arrays with reset markers first (1/4) and, in the wild stream, at later positions, scalar-vs-table conflicts, nested arrays, marker as scalar); plus value pairs for merge/finish and 12 CLI --no-extends scenarios; distinct = distinct request lines",
+        "explanation": "theorems on merge/strip/validate/resolve + differential comparison of the resolved toml::Value (canonical, keys sorted) or error kind and chain + an independent Rust left-fold oracle + flatten / --no-extends predicates on the real loader and binary",
+        "trusted_base": COMMON_TRUST + ["toml parse/print and serde are library behaviour (parameter)", "path canonicalisation is a parameter (mock FileSystem)"],
+        "assumptions": ["table keys are unique (TOML guarantees it)"],
     },
     "C05": {
         "modules": ["SlocModel.Props.C05"],
